@@ -17,7 +17,8 @@ CHECKS = {
                 "Converged (same buckets, keys, current content, content type, metadata, tags, pending uploads modulo ids), "
                 "that no forwarded call fails after the primary succeeded and that the upload-id map stays exact. TLC then "
                 "generates random API programs without explicit version ids (weighted to interleaved multipart uploads on "
-                "two keys, conditional deletes, copies, appends with offsets); the harness runs them THROUGH the real "
+                "two keys, conditional deletes, bulk deletes with per-entry conditions, copies, appends with offsets) plus a "
+                "breadth-first cover of the bulk-delete situations; the harness runs them THROUGH the real "
                 "replication storage over real MetadataPartStorage stacks (1 and 2 secondaries, mixed sql/filesystem part "
                 "stores) and logs after every call the views of the wrapper, the primary and each secondary. TLC validates "
                 "the wrapper against Pithos.tla (it must behave like a storage), each secondary against the model "
@@ -54,6 +55,28 @@ def _corrupt_secondary(prog):
     return False
 
 
+GEN_OPS = rf.ALL_OPS + ["DeleteObjects"]
+
+
+def bulk_cover_programs(ctx):
+    """Breadth-first cover of the bulk-delete situations (ReplicationGen!BulkSit): versioning state x per-entry
+    condition (none / current ETag / stale ETag) x object present x outcome, and calls that mix deleted and refused
+    entries. A smallest covering selection of the shortest programs is always executed."""
+    r = ctx.tlc("ReplicationGen", "Replication.Cover.cfg", workers=1, timeout=600, count_mc=False)
+    ps = [p for p in r.printed if isinstance(p, dict) and "keys" in p]
+    keys = set(k for p in ps for k in p["keys"])
+    if r.outcome != "ok" or len(keys) < 21:
+        raise vlib.Infra("bulk-delete cover incomplete: %d of 21 situations (%s)\n%s" % (len(keys), r.outcome, r.output[-1500:]))
+    chosen, covered = [], set()
+    while covered != keys:
+        best = max(ps, key=lambda p: (len(set(p["keys"]) - covered), -len(p["calls"])))
+        chosen.append(best)
+        covered |= set(best["keys"])
+    ctx.log("bulk-delete cover: %d situations, %d programs selected of %d, %d states, %.1fs" % (len(keys), len(chosen), len(ps), r.distinct, r.wall))
+    ctx.extra["bulk_delete_cover"] = {"situations": sorted(keys), "programs": len(chosen)}
+    return [p["calls"] for p in chosen]
+
+
 def _describe(w, line):
     d = w.get("detail")
     if w["what"] == "secondary" and isinstance(d, dict):
@@ -76,13 +99,16 @@ def run(ctx):
     nprog = ctx.pick(10, 60)
     depth = ctx.pick(25, 40)
     drv = ctx.gobuild("replication")
+    cover = bulk_cover_programs(ctx)
     opcount = {}
     inscope = 0
     multi_up = 0
+    bulk = {"calls": 0, "entries_deleted": 0, "entries_refused": 0, "mixed_calls": 0}
     for ci, conf in enumerate(configs):
         nsec = len(conf.split(":")[1].split(","))
         label = conf.replace(":", "_").replace(",", "+")
-        progs = rf.gen_programs(ctx, "ReplicationGen", "Replication.Gen.cfg", nprog, depth, rf.ALL_OPS, ctx.seed * 1000 + ci)
+        progs = rf.gen_programs(ctx, "ReplicationGen", "Replication.Gen.cfg", nprog, depth, GEN_OPS, ctx.seed * 1000 + ci)
+        progs = progs + cover        # the bulk-delete cover runs on every configuration
         pf = ctx.path("programs-%s.ndjson" % label)
         vlib.write_ndjson(pf, [{"id": i + 1, "calls": p} for i, p in enumerate(progs)])
         tf = ctx.path("trace-%s.ndjson" % label)
@@ -101,6 +127,13 @@ def run(ctx):
                 inscope += 1
             if ln["call"]["op"] != "Reset" and sum(len(bv["ups"]) for bv in ln["views"]) >= 2:
                 multi_up += 1
+            if ln["call"]["op"] == "DeleteObjects" and ln["res"]["err"] == "":
+                d = sum(1 for e in ln["entries"] if e["deleted"])
+                f = len(ln["entries"]) - d
+                bulk["calls"] += 1
+                bulk["entries_deleted"] += d
+                bulk["entries_refused"] += f
+                bulk["mixed_calls"] += 1 if d and f else 0
         if ci == 0:
             rf.self_test(ctx, "ReplicationTrace", "Replication.Trace.cfg", tf, subst, _corrupt_secondary, "secondary-content")
     ctx.extra["distinct_nontrivial"] = ctx.traces
@@ -108,9 +141,12 @@ def run(ctx):
     ctx.extra["configs"] = configs
     ctx.extra["successful_mutations_checked_for_convergence"] = inscope
     ctx.extra["steps_with_two_or_more_pending_uploads"] = multi_up
-    missing = [o for o in rf.ALL_OPS if opcount.get(o, 0) == 0]
+    ctx.extra["bulk_deletes"] = bulk
+    missing = [o for o in GEN_OPS if opcount.get(o, 0) == 0]
     if missing:
         raise vlib.Infra("operations never generated: %s" % missing)
+    if bulk["entries_refused"] == 0 or bulk["mixed_calls"] == 0:
+        raise vlib.Infra("bulk deletes with refused entries were not exercised: %s" % bulk)
     if inscope < 50 or multi_up == 0:
         raise vlib.Infra("too little in-scope activity: %d successful mutations, %d steps with interleaved uploads" % (inscope, multi_up))
     ctx.assumptions += [
